@@ -182,9 +182,7 @@ func protoExplore(job *Job, r *Report, prop string) {
 			recCore(append(append([]string{}, script...), n2), letters, n)
 		}
 	}
-	if maxLen < 3 {
-		recCore(nil, core, 3)
-	}
+	recCore(nil, core, 3) // in the thorough tier too: the core holds a letter that the full alphabet leaves out (too long to cut)
 	recCore(nil, core4, 4)
 }
 
